@@ -1563,7 +1563,13 @@ def boot_time():
         for line in f:
             if line.startswith(b'btime'):
                 ret = float(line.strip().split()[1])
-                BOOT_TIME = ret
+                if BOOT_TIME is None:
+                    # Cached for Process.create_time() only. It must
+                    # not follow later system clock updates, otherwise
+                    # the identity (PID + creation time) of a Process
+                    # instance created before the update would no
+                    # longer match the one of the very same process.
+                    BOOT_TIME = ret
                 return ret
         msg = f"line 'btime' not found in {path}"
         raise RuntimeError(msg)
